@@ -188,9 +188,14 @@ fn ticks_ms(t: u64) -> u64 {
 /// bestmove must stay below T + CPU_ALLOW_MS.
 fn part_blackbox(bytes: &[u8], stats: &mut Stats) -> Verdict {
     let mut s = Src::new(bytes);
-    let (p, kind) = match s.weighted(&[50, 25, 25]) {
+    let (p, kind) = match s.weighted(&[42, 22, 20, 16]) {
         0 => (gen::g_motif_n(&mut s, 8), "explosive"),
         1 => gen::g_mix(&mut s),
+        3 => {
+            // small and blocked positions: the search gets twenty and more iterations deep within the budget
+            let (q, _) = gen::g_small(&mut s);
+            (q, "small")
+        }
         _ => (gen::g_play(&mut s), "game"),
     };
     if p.legal_moves().is_empty() {
@@ -353,6 +358,21 @@ pub fn run(tier: Tier, seed: u64, known: &Known) -> PropRun {
     ];
     let kmax = tier.pick(300_000u64, 3_000_000u64);
     run.extra.insert("k_max".into(), json!(kmax));
+    // the black-box layer runs FIRST: a search that never comes back is, for this property, the
+    // violation itself, and only the real process can be watched from outside (CPU time consumed
+    // after the budget); the in-process parts can only end such a run as inconclusive
+    // the real binary under a real clock, judged on CPU time (never on wall-clock time)
+    if crate::blackbox::engine_path().is_none() {
+        run.inconclusive = Some("engine binary not built".into());
+        return run;
+    }
+    let part = Part { name: "blackbox", cases: tier.pick(320, 6_000), min_len: 24, max_len: 400, max_shrink: 40, threads: threads() };
+    let (st, fl) = run_part(&part, seed, known, part_blackbox);
+    run.stats.merge(st);
+    if fl.is_some() {
+        run.failure = fl;
+        return run;
+    }
     let part = Part { name: "enumerated", cases: tier.pick(48, 1_000), min_len: 24, max_len: 400, max_shrink: 100, threads: threads() };
     let (st, fl) = run_part(&part, seed, known, part_enumerated);
     run.stats.merge(st);
@@ -370,15 +390,6 @@ pub fn run(tier: Tier, seed: u64, known: &Known) -> PropRun {
         run.failure = fl;
         return run;
     }
-    // the real binary under a real clock, judged on CPU time (never on wall-clock time)
-    if crate::blackbox::engine_path().is_none() {
-        run.inconclusive = Some("engine binary not built".into());
-        return run;
-    }
-    let part = Part { name: "blackbox", cases: tier.pick(320, 6_000), min_len: 24, max_len: 400, max_shrink: 40, threads: threads() };
-    let (st, fl) = run_part(&part, seed, known, part_blackbox);
-    run.stats.merge(st);
-    run.failure = fl;
     // informational wall-clock figures from the real binary (never a verdict)
     if let Some(info) = crate::blackbox::movetime_timings() {
         run.extra.insert("wall_clock_information_only".into(), info);
